@@ -32,6 +32,8 @@ pub struct ConcProfile {
   pub blocking_only: bool,
   /// numerator (over 6) of the chance that a producer's "life-cycle slot" closes its own handle
   pub close_own_in: u64,
+  /// one operation in this many gets an extra, unprompted poll while it is pending (F7)
+  pub spurious_poll_in: u64,
 }
 
 impl ConcProfile {
@@ -49,6 +51,7 @@ impl ConcProfile {
       caps: vec![1, 1, 2, 2, 3, 4, 5, 8],
       blocking_only: false,
       close_own_in: 1,
+      spurious_poll_in: 8,
     }
   }
 }
@@ -57,7 +60,7 @@ pub struct ConcFamily {
   pub profile: ConcProfile,
 }
 
-fn gen_plan(rng: &mut Rng, allow_cancel: bool) -> Plan {
+fn gen_plan(rng: &mut Rng, allow_cancel: bool, spurious_in: u64) -> Plan {
   let mut p = Plan::NONE;
   if allow_cancel && rng.chance(1, 5) {
     p.cancel_after = rng.range(1, 2) as u8;
@@ -66,7 +69,7 @@ fn gen_plan(rng: &mut Rng, allow_cancel: bool) -> Plan {
   if rng.chance(1, 6) {
     p.swap_waker = true;
   }
-  if rng.chance(1, 8) {
+  if rng.chance(1, spurious_in) {
     p.spurious_poll = true;
   }
   p
@@ -112,7 +115,7 @@ impl ConcFamily {
         _ => rng.range(1, left.min(5)),
       };
       left -= n;
-      ops.push(POp::Send { form, n: n as u8, plan: gen_plan(rng, p.cancel) });
+      ops.push(POp::Send { form, n: n as u8, plan: gen_plan(rng, p.cancel, p.spurious_poll_in) });
     }
     Producer { ops }
   }
@@ -142,7 +145,7 @@ impl ConcFamily {
         forms.push(RecvForm::Stream);
       }
       let form = *rng.pick(&forms);
-      ops.push(COp::Recv { form, max: rng.range(1, 4) as u8, timeout_ns: *rng.pick(&[1u64, 1_000, 1_000_000, 50_000_000]), plan: gen_plan(rng, p.cancel) });
+      ops.push(COp::Recv { form, max: rng.range(1, 4) as u8, timeout_ns: *rng.pick(&[1u64, 1_000, 1_000_000, 50_000_000]), plan: gen_plan(rng, p.cancel, p.spurious_poll_in) });
     }
     // the cycle always ends with a plain blocking receive, so a consumer never just spins
     let last_form = if !p.blocking_only && fl.has_batch() && rng.chance(1, 3) { RecvForm::Batch } else { RecvForm::Single };
